@@ -112,7 +112,11 @@ func runCorpus(t *testing.T, st *ev.Stats) {
 }
 
 // TestReplay re-executes the case stored in $VERIF_REPLAY without rapid.
+// replayT: the running *testing.T for runners that drive third-party helpers needing one (the IBC coordinator).
+var replayT *testing.T
+
 func TestReplay(t *testing.T) {
+	replayT = t
 	path := os.Getenv("VERIF_REPLAY")
 	if path == "" {
 		t.Skip("VERIF_REPLAY not set")
